@@ -152,9 +152,26 @@ fn embeds_fonts(fmt: &str) -> bool { matches!(fmt, "xb" | "adf" | "idf") }
 // ------------------------------------------------------------------------------------------------ generators
 fn six(r: &mut StdRng) -> u8 { let v: u8 = r.gen_range(0..64); (v << 2) | (v >> 4) }
 
-fn pal16_sixbit(r: &mut StdRng) -> Vec<(u8, u8, u8)> { (0..16).map(|_| (six(r), six(r), six(r))).collect() }
+fn pal16_sixbit(r: &mut StdRng) -> Vec<(u8, u8, u8)> {
+    let mut p: Vec<(u8, u8, u8)> = (0..16).map(|_| (six(r), six(r), six(r))).collect();
+    // some formats END with the palette: one palette in four ends in a 6-bit value that is also a marker byte (0x1A = DOS end
+    // of file, 0x00, 0x3F) - and one in four begins with one
+    let exp = |v: u8| (v << 2) | (v >> 4);
+    let marks: [u8; 4] = [exp(0x1A), exp(0), exp(0x3F), exp(0x1B)];
+    match r.gen_range(0..8) { 0 | 1 => p[15].2 = marks[r.gen_range(0..4)], 2 => p[15] = (marks[0], marks[0], marks[0]), 3 => p[0].0 = marks[r.gen_range(0..4)], _ => {} }
+    p
+}
 
 fn rnd_font(r: &mut StdRng, height: u8, name: &str) -> BitFont {
+    // one font in eight is the BUILT-IN font object with a glyph edited in place (same name, with a refreshed or a stale checksum):
+    // what a font editor hands to the writers; they must not take it for the built-in font
+    if height == 16 && r.gen_range(0..8) == 0 {
+        let mut f = BitFont::default();
+        if let Some(g) = f.get_glyph_mut('A') { g.data[2] ^= 0x7E; }
+        if let Some(g) = f.get_glyph_mut(' ') { for b in g.data.iter_mut() { *b = 0; } }
+        if r.gen_bool(0.5) { f.calculate_checksum(); }
+        return f;
+    }
     let mut data = vec![0u8; 256 * height as usize];
     for b in data.iter_mut() { *b = r.gen(); }
     for row in 0..height as usize {
@@ -166,7 +183,14 @@ fn rnd_font(r: &mut StdRng, height: u8, name: &str) -> BitFont {
         0 => "n".repeat(21), 1 => "n".repeat(22), 2 => "n".repeat(23), 3 => "Codepage 1251 Cyrillic, (swiss)".to_string(), 4 => String::new(), 5 => "n".repeat(40),
         _ => name.to_string(),
     };
-    BitFont::create_8(name, 8, height, &data)
+    let mut f = BitFont::create_8(name, 8, height, &data);
+    // a font object whose glyphs were edited in place after it was built: the checksum it carries is stale (get_glyph_mut does not
+    // refresh it) - code that recognises fonts by checksum must not take it for the font it was
+    if r.gen_range(0..4) == 0 {
+        if let Some(g) = f.get_glyph_mut('A') { g.data[0] ^= 0x5A; }
+        if r.gen_bool(0.5) { f.calculate_checksum(); }
+    }
+    f
 }
 
 fn pick<T: Copy>(r: &mut StdRng, xs: &[T]) -> T { xs[r.gen_range(0..xs.len())] }
